@@ -1,2 +1,39 @@
-(* further suites are added here *)
-let run (suite : string) (_op : string) (_args : Sx.sexp list) : string = "unknown-suite " ^ suite
+(* suites beyond VAL/F64/UNI *)
+open Model
+open Sx
+type string = Stdlib.String.t
+type char = Stdlib.Char.t
+
+let default_fuel = ref 20000
+
+let opt_n (x : sexp) : n option = match x with A "none" -> None | A a -> Some (n_of_int (int_of_string a)) | _ -> raise (Parse_error "opt int")
+
+let hex_of_byte_list (l : n list) : string =
+  let b = Buffer.create 64 in
+  List.iter (fun x -> Buffer.add_string b (Printf.sprintf "%02x" (int_of_n x))) l;
+  Buffer.contents b
+
+let profile_of (a : string) : profile = if a = "release" then Release else Debug
+
+let render_x (r : xstate xres) : string =
+  let out e = " out:" ^ hex_of_byte_list e.chan.out_bytes in
+  match r with
+  | XOk (_, e) -> "ok" ^ out e
+  | XErr (x, e) -> "err " ^ utf8_of_str (rt_error_name x) ^ " " ^ atom_of_str (rt_error_display x) ^ out e
+  | XPanic s -> "panic " ^ Main_common.site_name s
+  | XUB s -> "ub " ^ Main_common.site_name s
+  | XOutOfFuel -> "outoffuel"
+  | XOverBudget -> "overbudget"
+
+let run_exec (op : string) (args : sexp list) : string =
+  match op, args with
+  | "runast", [ast; A stdin; wb; rf; A prof] ->
+      let p = Astsx.program_of ast in
+      let c : channels = { in_rest = str_of_atom stdin; in_pos = N0; in_fault = opt_n rf; out_bytes = []; out_budget = opt_n wb } in
+      render_x (exec_program (profile_of prof) (nat_of_int !default_fuel) p c)
+  | _ -> "unknown-op " ^ op
+
+let run (suite : string) (op : string) (args : sexp list) : string =
+  match suite with
+  | "exec" -> run_exec op args
+  | _ -> "unknown-suite " ^ suite
